@@ -16,7 +16,13 @@ MINMAX = 'min_max_uniform_quantize'
 FLOATCAST = 'float_casting'
 NOQ = 'no_quantize'
 BOGUS = 'not_a_registered_algorithm'
+BOGUS_UPPER = 'Custom_GPTQ'      # an unregistered key with upper-case letters (user-registered style)
 ALGOS = [MINMAX, FLOATCAST, NOQ, BOGUS]
+
+
+def bogus_spelling(r, algo):
+  """Two spellings of 'an algorithm key the library does not know'."""
+  return r.choice([BOGUS, BOGUS_UPPER]) if algo == BOGUS else algo
 
 
 def _t(bits, sym=True, gran='TENSORWISE', dtype='INT', block=0):
@@ -86,6 +92,7 @@ GOOD_FOR = {
     NOQ: ['none', 'default', 'a8w8', 'wo8_ch', 'fp16'],
     BOGUS: ['none', 'a8w8', 'skip_a8w8'],
 }
+GOOD_FOR[BOGUS_UPPER] = GOOD_FOR[BOGUS]
 _STATIC_OPS = ['ADD', 'AVERAGE_POOL_2D', 'BATCH_MATMUL', 'CONCATENATION', 'CONV_2D', 'CONV_2D_TRANSPOSE',
                'DEPTHWISE_CONV_2D', 'FULLY_CONNECTED', 'GELU', 'LOGISTIC', 'MEAN', 'MUL', 'RESHAPE', 'RSQRT',
                'SOFTMAX', 'SPLIT', 'STRIDED_SLICE', 'SUB', 'TANH', 'TRANSPOSE', 'INPUT', 'OUTPUT']
@@ -97,7 +104,7 @@ def likely_good_configs(op, algo):
   """Generator-side guess of configs the library accepts for (op, algo); only steers the mix."""
   if algo == NOQ:
     return GOOD_FOR[NOQ]
-  if algo == BOGUS:
+  if algo in (BOGUS, BOGUS_UPPER):
     return GOOD_FOR[BOGUS]
   if algo == FLOATCAST:
     return ['fp16']
@@ -166,7 +173,7 @@ def mk_config(name_or_desc, spelling='enum'):
 
 def mk_algo(name, spelling='enum'):
   from ai_edge_quantizer import algorithm_manager
-  if spelling == 'enum' and name != BOGUS:
+  if spelling == 'enum' and name not in (BOGUS, BOGUS_UPPER):
     return algorithm_manager.AlgorithmName(name)
   return name
 
